@@ -120,8 +120,9 @@ pub fn bracket_depth(text: &str) -> usize {
 }
 
 /// Load `text`; if accepted, execute it in both modes; render every error.  Err = a violation.
-/// Known finding D21: tree-sitter's query cursor (C library, 0.24.7) corrupts memory when a `+`
-/// repetition is applied to something that can match nothing (`(x)*+`, `(x)?+`, `((x)* @c)+`).
+/// Known finding D21: tree-sitter (C library, 0.24.7) cannot cope with a `+` repetition applied to
+/// something that can match nothing (`(x)*+`, `(x)?+`, `((x)* @c)+`, `(x)* @c +`): the query
+/// cursor corrupts memory, or `ts_query_new` itself never returns.
 /// True when `text` has a `+` (outside strings and comments) directly after `*` / `?`, or after a
 /// bracketed group that contains a `*` or `?` anywhere inside - an over-approximation; such inputs
 /// are not executed in-process.
@@ -162,9 +163,21 @@ pub fn plus_over_nullable(text: &str) -> bool {
         if *c != '+' {
             continue;
         }
+        // step back over blanks and over captures (`(x)* @c +` repeats the captured `(x)*`)
         let mut j = k;
-        while j > 0 && plain[j - 1].is_whitespace() {
-            j -= 1;
+        loop {
+            while j > 0 && plain[j - 1].is_whitespace() {
+                j -= 1;
+            }
+            let mut m = j;
+            while m > 0 && (plain[m - 1].is_alphanumeric() || plain[m - 1] == '_' || plain[m - 1] == '-' || plain[m - 1] == '.') {
+                m -= 1;
+            }
+            if m > 0 && m < j && plain[m - 1] == '@' {
+                j = m - 1;
+                continue;
+            }
+            break;
         }
         if j == 0 {
             continue;
